@@ -137,6 +137,11 @@ def _entries():
     add('ldr slice adapt to foreign random variable after an own one',
         lambda a, b: (_ro_fresh_ldr(a)[0].adapt(a['z'][0]), _ro_fresh_ldr(a)[1].adapt(b['z'][1])),
         fronts1=['ro'])
+    add('dro slice adapt to foreign random variable',
+        lambda a, b: _dro_fresh_var(a)[0].adapt(b['z'][1]), fronts1=['dro'])
+    add('dro slice adapt to foreign random variable after an own one',
+        lambda a, b: (_dro_fresh_var(a)[0].adapt(a['z'][0]), _dro_fresh_var(a)[1].adapt(b['z'][1])),
+        fronts1=['dro'])
     add('dro adapt to foreign random variable after an own one',
         lambda a, b: (_dro_fresh_var(a).adapt(a['z'][0]), _dro_fresh_var(a).adapt(b['z'][1])),
         fronts1=['dro'])
